@@ -159,6 +159,73 @@ type walker struct {
 	spawned   map[string]bool
 	deferred  bool
 	frames    []*frame
+	// refFields: shared fields of slice or map type; alias: local variables that
+	// were assigned such a field (or a reslicing of it) without copying: they
+	// name the same backing storage, so every later use of the local is an
+	// access to the field
+	refFields map[string]bool
+	alias     map[*ast.Object]string
+}
+
+// aliasOf: e evaluates to (a reslicing of) a shared slice / map field, or to a
+// local that already aliases one
+func (w *walker) aliasOf(e ast.Expr) (string, bool) {
+	for {
+		switch x := e.(type) {
+		case *ast.ParenExpr:
+			e = x.X
+			continue
+		case *ast.SliceExpr:
+			e = x.X
+			continue
+		}
+		break
+	}
+	if f, ok := w.recvField(e); ok && w.refFields[f] {
+		return f, true
+	}
+	if id, ok := e.(*ast.Ident); ok && id.Obj != nil {
+		if f, ok := w.alias[id.Obj]; ok {
+			return f, true
+		}
+	}
+	return "", false
+}
+
+// noteAliases records lhs[i] as an alias when rhs[i] is one
+func (w *walker) noteAliases(lhs []ast.Expr, rhs []ast.Expr) {
+	if len(lhs) != len(rhs) {
+		return
+	}
+	for i := range lhs {
+		id, ok := lhs[i].(*ast.Ident)
+		if !ok || id.Obj == nil || id.Name == "_" {
+			continue
+		}
+		if f, ok := w.aliasOf(rhs[i]); ok {
+			w.alias[id.Obj] = f
+		}
+	}
+}
+
+// baseIdent peels indexing / slicing / dereferences down to a local identifier
+func baseIdent(e ast.Expr) *ast.Ident {
+	for {
+		switch x := e.(type) {
+		case *ast.ParenExpr:
+			e = x.X
+		case *ast.IndexExpr:
+			e = x.X
+		case *ast.SliceExpr:
+			e = x.X
+		case *ast.StarExpr:
+			e = x.X
+		case *ast.Ident:
+			return x
+		default:
+			return nil
+		}
+	}
 }
 
 func (w *walker) isRecv(e ast.Expr) bool {
@@ -231,6 +298,11 @@ func (w *walker) expr(e ast.Expr) []*sp {
 	case *ast.Ident:
 		if w.isRecv(x) {
 			return []*sp{irregular("receiver used as a value")}
+		}
+		if x.Obj != nil {
+			if f, ok := w.alias[x.Obj]; ok {
+				return []*sp{act("ARd " + coqStr(f))}
+			}
 		}
 		return nil
 	case *ast.BasicLit:
@@ -389,6 +461,12 @@ func (w *walker) target(e ast.Expr) (pre []*sp, wr []*sp) {
 		}
 		return nil, nil
 	}
+	if id := baseIdent(e); id != nil && id.Obj != nil {
+		if f, ok := w.alias[id.Obj]; ok {
+			// an element of the shared backing storage is written through the local name
+			return w.subReads(e), []*sp{act("AWr " + coqStr(f))}
+		}
+	}
 	if f, ok := w.baseField(e); ok {
 		switch {
 		case f == w.lockField:
@@ -435,6 +513,11 @@ func (w *walker) stmt(s ast.Stmt, top bool) *sp {
 			for _, spec := range gd.Specs {
 				if vs, ok := spec.(*ast.ValueSpec); ok {
 					out = append(out, w.exprs(vs.Values)...)
+					var lhs []ast.Expr
+					for _, n := range vs.Names {
+						lhs = append(lhs, n)
+					}
+					w.noteAliases(lhs, vs.Values)
 				}
 			}
 		}
@@ -451,6 +534,9 @@ func (w *walker) stmt(s ast.Stmt, top bool) *sp {
 			// op= also reads the target; the write dominates
 		}
 		out = append(out, w.exprs(x.Rhs)...)
+		if x.Tok == token.ASSIGN || x.Tok == token.DEFINE {
+			w.noteAliases(x.Lhs, x.Rhs)
+		}
 		return seq(append(out, wr...)...)
 	case *ast.IncDecStmt:
 		p, q := w.target(x.X)
@@ -558,6 +644,10 @@ func (w *walker) stmt(s ast.Stmt, top bool) *sp {
 			p1, q1, p2, q2 = nil, nil, nil, nil
 		}
 		head := append(append(append(p1, p2...), q1...), q2...)
+		if f, ok := w.aliasOf(x.X); ok {
+			// the elements of the shared storage are read at every iteration
+			head = append([]*sp{act("ARd " + coqStr(f))}, head...)
+		}
 		w.frames = append(w.frames, &frame{kind: "loop"})
 		body := w.stmt(x.Body, false)
 		w.frames = w.frames[:len(w.frames)-1]
@@ -644,6 +734,7 @@ func extract(repo string, tg target) (string, error) {
 	var problems []string
 	// the struct
 	var fields []string
+	refFields := map[string]bool{}
 	lockField := ""
 	found := false
 	ast.Inspect(f, func(n ast.Node) bool {
@@ -671,6 +762,14 @@ func extract(repo string, tg target) (string, error) {
 					lockField = nm.Name
 				} else {
 					fields = append(fields, nm.Name)
+					switch t := fl.Type.(type) {
+					case *ast.ArrayType:
+						if t.Len == nil {
+							refFields[nm.Name] = true
+						}
+					case *ast.MapType:
+						refFields[nm.Name] = true
+					}
 				}
 			}
 		}
@@ -707,7 +806,8 @@ func extract(repo string, tg target) (string, error) {
 	spawned := map[string]bool{}
 	var ms []method
 	for _, fd := range decls {
-		w := &walker{lockField: lockField, tracked: tracked, immutable: immutable, methods: methods, spawned: spawned}
+		w := &walker{lockField: lockField, tracked: tracked, immutable: immutable, methods: methods, spawned: spawned,
+			refFields: refFields, alias: map[*ast.Object]string{}}
 		if names := fd.Recv.List[0].Names; len(names) == 1 {
 			w.recv = names[0].Obj
 			w.recvName = names[0].Name
